@@ -24,7 +24,6 @@ ASSUMPTIONS = [
     "a non-polynomial operand contributes either no name or the default name q0 to the union "
     "(aspolynomial gives constants the name q0); both are accepted",
     "each aligned polynomial keeps its input's coefficient dtype (bool/int64/float64/complex128 inputs)",
-    "operands that already share one name tuple may keep it even if it is not in numeric order",
 ]
 
 FUNCS = ["align_polynomials", "align_shape", "align_indeterminants", "align_exponents"]
@@ -35,6 +34,23 @@ def case_st(draw):
     n = draw(st.sampled_from([1, 2, 2, 2, 3, 3, 4]))
     ops = draw(gen.operand_family(n=n, numeric_prob=0.2, max_terms=6, max_exp=3,
                                   kinds=draw(st.sampled_from(["ifc", "ifc", "ifcb", "b"]))))
+    polys = [d for d in ops if "num" not in d]
+    if polys and draw(st.integers(0, 4)) == 0:
+        # every polynomial operand stores the same name tuple, which is not in index order
+        # (symbols("q1,q0"), names=(...), set_dimensions produce such): alignment still ends in index order
+        D = draw(st.integers(2, 3))
+        tup = list(draw(st.permutations(sorted(draw(st.lists(st.sampled_from(gen.NAME_POOL), min_size=D, max_size=D,
+                                                            unique=True)), key=gen.var_num)[::-1])))
+        for d in polys:
+            old = list(d["names"])
+            d["names"] = tup
+            d["terms"] = [[[(t[0][j] if j < len(old) else 0) for j in range(D)], t[1]] for t in d["terms"]]
+            seen, terms = set(), []
+            for t in d["terms"]:
+                if tuple(t[0]) not in seen:
+                    seen.add(tuple(t[0]))
+                    terms.append(t)
+            d["terms"] = terms
     opts = {}
     if draw(st.integers(0, 2)) == 0:
         opts = draw(st.dictionaries(
@@ -106,11 +122,6 @@ def check_case(case, ctx):
         opts = [tuple(sorted(poly_names, key=var_index))] if poly_names else []
         if has_numeric or not poly_names:
             opts.append(tuple(sorted(poly_names | {"q0"}, key=var_index)))
-        name_tuples = {tuple(d["names"]) for d in case["ops"] if "num" not in d}
-        if len(name_tuples) == 1 and not has_numeric:
-            # all operands already share one (possibly unsorted) name tuple:
-            # leaving it alone is "already aligned"
-            opts.append(next(iter(name_tuples)))
         for i, o in enumerate(out):
             if tuple(o.names) != tuple(out[0].names):
                 return fail("names-differ", "result %d names %s vs %s" % (i, o.names, out[0].names))
